@@ -3,6 +3,7 @@ from . import _stream as S
 
 PROP = "C11"
 LEVEL = "exploration"
+BLOCK = 32   # neighbouring configurations share a worker process
 RULE = ("all ten classes, grid + seeded random; uses_storage_type queried for all four StorageType members before the first next(), after a seeded random quarter of the actions and after the end; storages touched are taken from the executor log; non-trivial = stream touches RAM or DISK; distinct = distinct (class, parameters)")
 REQUIRED = ["C11.query_never_raises", "C11.no_under_report"]
 ASSUMPTIONS = ["executor semantics follow tests/test_validity.py",
